@@ -5,7 +5,7 @@ D=$(mktemp -d /tmp/gvc-mut-XXXXXX)
 rsync -a --exclude .git /repo/ $D/
 ( cd $D && patch -p1 -s < "$PATCH" ) || { echo "patch failed"; rm -rf $D; exit 3; }
 export GOFLAGS=-mod=mod GOPROXY=off
-GVC_REPO=$D /verif/bin/gvc check $PROP --no-evidence "$@" | sed "s#$D#/repo#g"
+GVC_REPO=$D GVC_OUT=$D.out /verif/bin/gvc check $PROP --no-evidence "$@" | sed "s#$D#/repo#g"
 RC=$?
-rm -rf $D
+rm -rf $D $D.out
 exit $RC
